@@ -106,7 +106,8 @@ def corrupt(prop):
                 d["t"] = d["t"][:-2] + ("00" if d["t"][-2:] != "00" else "01")
                 return out(i, d, "changed the transaction ID of a logged query return")
             if prop == "C10" and e == "In" and d["q"] == "announce_peer" and d["hasA"] and d["tok"] and not d["drop"]:
-                if any(x["e"] == "Cb" and x["kind"] in ("AddPeer", "OnAnnounce") for x in ds[i + 1:i + 4]):
+                nxt = next((j for j in range(i + 1, len(ds)) if ds[j]["e"] == "In"), len(ds))    # its own effects only
+                if any(x["e"] == "Cb" and x["kind"] in ("AddPeer", "OnAnnounce") for x in ds[i + 1:min(nxt, i + 4)]):
                     d["tok"] = "00" + d["tok"][2:] if d["tok"][:2] != "00" else "01" + d["tok"][2:]
                     return out(i, d, "altered the token of a logged announce_peer whose effects were logged")
             if prop == "C11" and e == "Cb" and d["kind"] == "AddPeer":
